@@ -64,6 +64,8 @@ pub struct GenOpts {
     pub big: usize,
     /// always_ff blocks without if_reset (FF never reset → X in 4-state/SV until written)
     pub unreset_ffs: bool,
+    /// fine-grained generator features switched off by name (see `Gen::on`)
+    pub off: Vec<String>,
 }
 
 impl Default for GenOpts {
@@ -95,6 +97,7 @@ impl Default for GenOpts {
             explicit_clock_reset: false,
             big: 0,
             unreset_ffs: false,
+            off: vec![],
         }
     }
 }
@@ -117,6 +120,35 @@ impl GenOpts {
             inside: false,
             dyn_select: false,
             ..Default::default()
+        }
+    }
+    /// Apply `self.off` (plus the comma-separated env var VERIF_GEN_OFF) to the coarse flags.
+    pub fn apply_off(&mut self) {
+        if let Ok(v) = std::env::var("VERIF_GEN_OFF") {
+            for f in v.split(',').filter(|x| !x.is_empty()) {
+                if !self.off.iter().any(|x| x == f) {
+                    self.off.push(f.to_string());
+                }
+            }
+        }
+        for f in self.off.clone() {
+            match f.as_str() {
+                "signed" => self.signed = false,
+                "divmod" => self.divmod = false,
+                "functions" => self.functions = false,
+                "structs" => self.structs = false,
+                "enums" => self.enums = false,
+                "arrays" => self.arrays = false,
+                "case_stmt" => self.case_stmt = false,
+                "for_loops" => self.for_loops = false,
+                "generate" => self.generate = false,
+                "instances" => self.instances = false,
+                "packages" => self.packages = false,
+                "casts" => self.casts = false,
+                "inside" => self.inside = false,
+                "dyn_select" => self.dyn_select = false,
+                _ => {}
+            }
         }
     }
     pub fn wide() -> Self {
@@ -170,6 +202,9 @@ struct StructDef {
 const BOUNDARY_WIDTHS: &[usize] = &[1, 2, 3, 7, 8, 9, 15, 16, 17, 31, 32, 33, 63, 64, 65, 127, 128, 129, 200, 255, 256, 257, 300];
 
 impl<'a> Gen<'a> {
+    fn on(&self, f: &str) -> bool {
+        !self.o.off.iter().any(|x| x == f)
+    }
     fn feat(&mut self, f: &str) {
         if !self.feats.iter().any(|x| x == f) {
             self.feats.push(f.to_string());
@@ -207,7 +242,7 @@ impl<'a> Gen<'a> {
         match self.rng.below(6) {
             0 => format!("{}", v & 0xffff),
             1 => format!("{w}'d{v}"),
-            2 if self.o.signed => format!("{w}'sh{v:x}"),
+            2 if self.o.signed && self.on("signed_literal") => format!("{w}'sh{v:x}"),
             3 => format!("{w}'b{v:b}"),
             _ => format!("{w}'h{v:x}"),
         }
@@ -222,7 +257,7 @@ impl<'a> Gen<'a> {
             base = format!("{base}[{idx}]");
             self.feat("array_read");
         }
-        if s.width > 1 && self.rng.chance(1, 4) {
+        if s.width > 1 && self.rng.chance(1, 4) && self.on("select") {
             match self.rng.below(4) {
                 0 => {
                     let b = self.rng.usize(s.width);
@@ -265,18 +300,24 @@ impl<'a> Gen<'a> {
         let d = depth - 1;
         match self.rng.below(24) {
             0..=5 => {
-                let op = *self.rng.pick(&["+", "-", "&", "|", "^", "~^", "+", "-", "*"]);
+                let mut op = *self.rng.pick(&["+", "-", "&", "|", "^", "~^", "+", "-", "*"]);
+                if op == "*" && !self.on("mul") {
+                    op = "+";
+                }
+                if op == "~^" && !self.on("xnor") {
+                    op = "^";
+                }
                 if op == "*" {
                     self.feat("mul");
                 }
                 format!("({} {} {})", self.expr(env, d, width_hint), op, self.expr(env, d, width_hint))
             }
-            6 => {
+            6 if self.on("unary") => {
                 let op = *self.rng.pick(&["~", "-", "!", "&", "|", "^", "~&", "~|", "~^"]);
                 self.feat("unary");
                 format!("({}({}))", op, self.expr(env, d, width_hint))
             }
-            7 | 8 => {
+            7 | 8 if self.on("shift") => {
                 let op = *self.rng.pick(&["<<", ">>", "<<<", ">>>"]);
                 self.feat("shift");
                 // shift amount: small literal or a narrow signal
@@ -288,17 +329,17 @@ impl<'a> Gen<'a> {
                 };
                 format!("({} {} {})", self.expr(env, d, width_hint), op, amt)
             }
-            9 | 10 => {
+            9 | 10 if self.on("compare") => {
                 let op = *self.rng.pick(&["<:", "<=", ">:", ">=", "==", "!="]);
                 self.feat("compare");
                 format!("({} {} {})", self.expr(env, d, width_hint), op, self.expr(env, d, width_hint))
             }
-            11 => {
+            11 if self.on("logical") => {
                 let op = *self.rng.pick(&["&&", "||"]);
                 self.feat("logical");
                 format!("(({} != 0) {} ({} != 0))", self.expr(env, d, width_hint), op, self.expr(env, d, width_hint))
             }
-            12 | 13 => {
+            12 | 13 if self.on("ternary") => {
                 self.feat("ternary");
                 format!(
                     "(if ({} != 0) ? {} : {})",
@@ -307,13 +348,13 @@ impl<'a> Gen<'a> {
                     self.expr(env, d, width_hint)
                 )
             }
-            14 => {
+            14 if self.on("concat") => {
                 self.feat("concat");
                 let n = 2 + self.rng.usize(2);
                 let parts: Vec<String> = (0..n).map(|_| self.sigref(env)).collect();
                 format!("{{{}}}", parts.join(", "))
             }
-            15 => {
+            15 if self.on("replicate") => {
                 self.feat("replicate");
                 let r = 1 + self.rng.usize(4);
                 format!("{{{} repeat {}}}", self.sigref(env), r)
@@ -348,7 +389,7 @@ impl<'a> Gen<'a> {
                 let kw = if self.rng.bool() { "inside" } else { "outside" };
                 format!("({kw} {} {{{}, {}..={}}})", self.sigref(env), self.rng.below(16), a, b)
             }
-            20 if self.o.case_stmt => {
+            20 if self.o.case_stmt && self.on("case_expr") => {
                 self.feat("case_expr");
                 let sel = self.sigref(env);
                 format!(
@@ -367,7 +408,7 @@ impl<'a> Gen<'a> {
                 let q = if self.o.packages { "Pkg::" } else { "" };
                 format!("{q}{}({})", f.name, args.join(", "))
             }
-            22 if !self.pkg_consts.is_empty() => {
+            22 if !self.pkg_consts.is_empty() && self.on("package_const") => {
                 self.feat("package_const");
                 let c = self.rng.pick(&self.pkg_consts.clone()).0.clone();
                 format!("({} + Pkg::{})", self.expr(env, d, width_hint), c)
@@ -388,7 +429,7 @@ impl<'a> Gen<'a> {
     }
 
     fn lhs(&mut self, t: &Sig) -> String {
-        if t.width > 1 && self.rng.chance(1, 5) {
+        if t.width > 1 && self.rng.chance(1, 5) && self.on("partial_write") {
             self.feat("partial_write");
             let hi = self.rng.usize(t.width);
             let lo = self.rng.usize(hi + 1);
@@ -408,7 +449,7 @@ impl<'a> Gen<'a> {
         match self.rng.below(10) {
             0..=2 => {
                 let l = self.lhs(t);
-                if self.rng.chance(1, 5) && l == t.name {
+                if self.rng.chance(1, 5) && l == t.name && self.on("compound_assign") {
                     self.feat("compound_assign");
                     let op = *self.rng.pick(&["+=", "-=", "&=", "|=", "^=", "<<=", ">>="]);
                     let rhs = if op.contains('<') || op.contains('>') { format!("{}", self.rng.below(5)) } else { self.expr(env, ed.min(2), t.width) };
@@ -459,7 +500,7 @@ impl<'a> Gen<'a> {
                 s.push_str(&format!("{ind}}}\n"));
                 s
             }
-            6 if self.o.case_stmt => {
+            6 if self.o.case_stmt && self.on("switch_stmt") => {
                 self.feat("switch_stmt");
                 let mut s = format!("{ind}switch {{\n");
                 let arms = 1 + self.rng.usize(3);
@@ -590,6 +631,9 @@ impl<'a> Gen<'a> {
 
 /// Generate one design.
 pub fn generate(rng: &mut Rng, opts: &GenOpts) -> Design {
+    let mut opts = opts.clone();
+    opts.apply_off();
+    let opts = &opts;
     let mut g = Gen {
         rng,
         o: opts.clone(),
